@@ -26,8 +26,8 @@ def run(ctx):
         rule=("non-trivial: a component failure occurred, or a cancel was planned/happened, or the engine had >= 2 pools; "
               "distinct = distinct case lines (fault plan x cancel plan x pools)"),
         key_fn=key_fn, what_fn=what_fn,
-        translators=[("runasync", "RunAsyncGen.v"), ("grpcwarmup", "GrpcWarmUpGen.v")],
-        bridge_files=["Gen/RunAsync_bridge.v", "Gen/GrpcWarmUp_bridge.v"],
+        translators=[("runasync", "RunAsyncGen.v"), ("grpcwarmup", "GrpcWarmUpGen.v"), ("gofn-runinst", "GoFnRunInstGen.v")],
+        bridge_files=["Gen/RunAsync_bridge.v", "Gen/GrpcWarmUp_bridge.v", "Gen/GoFnRunInst_bridge.v"],
         trusted=[
             "extraction: ExtrOcamlBasic only; OCaml driver ocaml/C05/main.ml (history tokens -> model events) + ocaml/common/conv.ml",
             "correspondence harness harness/cmd/hC05: real engine.Engine with fault-plan mocks; the receive order of the await loop, "
